@@ -8,6 +8,7 @@
 #include <memory>
 #include <stdexcept>
 #include <string>
+#include <utility>
 #include <vector>
 
 #include "shape.hpp"
@@ -43,6 +44,7 @@ struct MockT {
   MAKE_CONST_MOCK1(k, const int&(const int&));
   MAKE_MOCK0(z, void());
   MAKE_MOCK1(v, void(const std::vector<int>&));
+  MAKE_MOCK1(p, (std::pair<int, int>(int)));
 };
 
 using EP = std::unique_ptr<trompeloeil::expectation>;
@@ -55,6 +57,7 @@ struct Inst {
   int snap = 0;
   int* cell = nullptr;
   std::string str;   // a local of class type named in LR_RETURN (short: no allocation)
+  std::pair<int, int> pr{0, 0};   // a local that the library prints element-wise (trace records)
   trompeloeil::sequence* s[3] = {nullptr, nullptr, nullptr};
 };
 
@@ -89,7 +92,9 @@ void se(int id, int k, int snap, const void* a1, const void* a2 = nullptr);
 int ret(int id, int snap, const void* a1, const void* a2 = nullptr);
 int& retref(int id, int snap, int& target, const void* a1);
 std::string rets(int id, int snap, const void* a1);
-std::string& retsr(int id, int snap, std::string& target, const void* a1);   // an lvalue of the return type: must be copied, not moved from
+std::string& retsr(int id, int snap, std::string& target, const void* a1);
+std::pair<int, int> retp(int id, int snap, const void* a1);
+std::pair<int, int>& retpr(int id, int snap, std::pair<int, int>& target, const void* a1);   // an lvalue of the return type: must be copied, not moved from
 const int& retcref(int id, int snap, const int& target, const void* a1);
 std::runtime_error thr_std(int id, int snap);
 int thr_int(int id, int snap);
